@@ -1,7 +1,7 @@
 \* quick 2: every reward 0..300 x delegator maps over a share grid (<= 3 entries) x two allocations
 CONSTANTS
   Rewards <- MCRewards  TxFees <- MCTxFees  AllocPairs <- MCAllocPairs  ShareMaps <- MCShareMaps
-  MaxReward = 300  ExtraRewards = {}  FeeSet = {3, 100, 299}
+  MaxReward = 300  ExtraRewards = {0}  FeeSet = {3, 100, 299}
   Costs = {0}  PayerInit = 1000  Linear = TRUE  MaxOps = 2  RecordHist = TRUE
   AllocGrid = {}  AllocFixed <- Allocs_MainAndThird
   ShareGrid = {1, 2, 10, 33, 34, 50, 99, 100}  MapFixed = {}  MaxDelegators = 3  SimDepth = 0
